@@ -25,7 +25,7 @@ ANCHORS = ["src/metador_core/schema/partial.py", "src/metador_core/harvester/__i
 ASSUMPTIONS = [
     "equality of partials is structural (non-None public field values, recursively), not class identity",
     "without allow_overwrite two provided atomic values conflict even when equal (the code's documented rule)",
-    "nested model classes at one position are of one class (chain condition of the property)",
+    "associativity is only checked for triples in which every nested position holds model values of ONE inheritance chain (no unrelated classes, no mix of model and opaque values): the property's chain condition",
 ]
 WORKERS = {"quick": 12, "thorough": 16}
 
@@ -88,6 +88,11 @@ def spec_merge(a, b, allow_overwrite):
         if "__cls__" in a:
             out["__cls__"] = a["__cls__"]
         return out
+    am, bm = isinstance(a, dict) and "__model__" in a, isinstance(b, dict) and "__model__" in b
+    if am != bm:
+        # a model and an opaque value at one position (Union[URL, Model]): "new overwrites" next to "recursive merge" is
+        # order-dependent by the documented rules themselves; like unrelated classes this is outside the associativity claim
+        _unrelated[0] += 1
     if not allow_overwrite:
         raise Conflict()
     return b
@@ -276,7 +281,9 @@ def check_triple(acc, S, P, ds, rng, tmp):
         if left[0] != right[0]:
             return bad("associativity-outcome", f"(a.b).c {left[0]} but a.(b.c) {right[0]} (allow_overwrite={ow})")
         if left[0] == "ok" and struct(left[1]) != struct(right[1]):
-            return bad("associativity", f"(a.b).c != a.(b.c) (allow_overwrite={ow}); c={json.dumps(sc, default=str)[:200]}")
+            gl, gr = struct(left[1])["__model__"], struct(right[1])["__model__"]
+            ks = [k for k in set(gl) | set(gr) if gl.get(k) != gr.get(k)]
+            return bad("associativity", f"(a.b).c != a.(b.c) (allow_overwrite={ow}) at field(s) {ks}: {str(gl.get(ks[0]))[:200]} vs {str(gr.get(ks[0]))[:200]}")
     # n-ary merge = fold
     acc.count("law.fold")
     try:
@@ -321,7 +328,7 @@ def run_class(acc, S, rng, ntriples, tmp, G, origin):
             return
         r = check_triple(acc, S, P, ds, rng, tmp)
         if r:
-            acc.violation(f"{r[0]}:{origin}", r[1], {"class": S.__name__, "origin": origin, "inputs": json.loads(json.dumps(ds, default=str))})
+            acc.violation(f"{r[0]}:{origin}", r[1], {"class": S.__name__, "origin": origin, "inputs": json.loads(json.dumps(ds, default=str)), "unit": _unit[0]})
             return
         if acc.evaluations % 500 == 1:
             acc.sample({"class": S.__name__, "fields": {k: str(f.outer_type_)[:50] for k, f in list(S.__fields__.items())[:6]},
@@ -361,7 +368,11 @@ def units(tier, seed):
     return us
 
 
+_unit = [None]
+
+
 def run_unit(u, acc):
+    _unit[0] = u
     from vlib import families as F
     from vlib import schemagen as G
     F.register()
@@ -394,5 +405,5 @@ def inconclusive(cov):
 
 
 def replay(case, acc):
-    for u in units("quick", 0)[:4] + units("quick", 0)[-1:]:
+    for u in ([case["unit"]] if case.get("unit") else units("quick", 0)[:4] + units("quick", 0)[-1:]):
         run_unit(u, acc)
